@@ -95,6 +95,16 @@ func confirm(np *nativeProc, rf *ReplayFile) (bool, nativeResult) {
 		ok = r.Outcome == "panic" || r.Outcome == "crash"
 	case "deadlock":
 		ok = r.Outcome == "timeout"
+	case "race":
+		bin, err := buildNative("race", true)
+		if err != nil {
+			return false, nativeResult{Outcome: "engine-error", Detail: err.Error()}
+		}
+		for try := 0; try < 5 && !ok; try++ {
+			hit, out := runRace(bin, nativeJob{ID: 1, Harness: rf.Harness, Tier: rf.Tier, Inputs: rf.Inputs, Timeout: 20000})
+			ok = hit
+			r = nativeResult{Outcome: "ok", Detail: clip(out, 1500)}
+		}
 	case "record":
 		r2 := np.run(nativeJob{ID: 2, Harness: rf.Harness, Tier: rf.Tier, Inputs: rf.Second, Timeout: 8000})
 		ok = recordsDiffer(r.Records, r2.Records, rf.Label)
